@@ -168,3 +168,79 @@ Proof.
   assert (R : forall t, In t [t1; t2; t3] -> ti_returned t = false) by (intros t Ht; apply Hret; cbn in *; tauto).
   destruct (opportunities_321 _ _ _ _ _ _ _ _ _ T R) as (AH & AM & AL). destruct p; lia.
 Qed.
+
+(* ------------------------------------------------------------------ the item at position k *)
+Lemma nth_error_zlen : forall A (l : list A) k x, nth_error l k = Some x -> Z.of_nat k < zlen l.
+Proof. intros A l k x H. unfold zlen. assert (k < length l)%nat by (apply nth_error_Some; congruence). lia. Qed.
+
+(* whatever sits at position k of level p's job list has been handed to its dispatch function once the level was
+   admitted in enough full turns: to_process * admitted turns > k *)
+Lemma item_served_within : forall beh envs rs st st' rs' ts p k it,
+  workload beh -> nosig st -> turns beh envs rs st = (st', rs', ts) -> (forall t, In t ts -> ti_returned t = false) ->
+  nth_error (jq st p) k = Some it -> Z.of_nat k < LOOP_TO_PROCESS * admitted_count ts p ->
+  exists l pre, jq st p ++ l = pre ++ jq st' p /\ zlen pre = total_disp ts p /\ nth_error pre k = Some it.
+Proof.
+  intros beh envs rs st st' rs' ts p k it W N T R Hk Hb.
+  destruct (turns_drain _ _ _ _ _ _ _ p W N T R) as (l & pre & E & L & Q).
+  exists l, pre. split; [exact E|]. split; [exact L|].
+  pose proof (nth_error_zlen _ _ _ _ Hk) as K1.
+  assert (K2 : Z.of_nat k < zlen pre) by lia.
+  assert (H1 : nth_error (jq st p ++ l) k = Some it) by (rewrite nth_error_app1; [exact Hk|apply nth_error_Some; congruence]).
+  rewrite E in H1. rewrite nth_error_app1 in H1; [exact H1|]. unfold zlen in K2. lia.
+Qed.
+
+(* turns compose *)
+Lemma turns_app : forall beh e1 e2 rs st,
+  turns beh (e1 ++ e2) rs st =
+  (let '(s1, r1, t1) := turns beh e1 rs st in let '(s2, r2, t2) := turns beh e2 r1 s1 in (s2, r2, t1 ++ t2)).
+Proof.
+  intros beh. induction e1 as [|e es IH]; intros e2 rs st; cbn [turns app].
+  - destruct (turns beh e2 rs st) as [[s r] t]. reflexivity.
+  - destruct (iteration beh e rs st) as [[s1 r1] t]. rewrite IH.
+    destruct (turns beh es r1 s1) as [[s2 r2] ts]. destruct (turns beh e2 r2 s2) as [[s3 r3] ts2]. reflexivity.
+Qed.
+Lemma admitted_count_app : forall a b p, admitted_count (a ++ b) p = admitted_count a p + admitted_count b p.
+Proof. induction a; intros; cbn; [reflexivity|]. unfold admitted_count in *. rewrite IHa. lia. Qed.
+Lemma admitted_count_nonneg : forall ts p, 0 <= admitted_count ts p.
+Proof. induction ts; intros; cbn; [lia|]. specialize (IHts p). unfold admitted_count in *. destruct (li_admitted (ti_lv a p)); lia. Qed.
+Lemma turns_length : forall beh envs rs st, length (snd (turns beh envs rs st)) = length envs.
+Proof.
+  intros beh. induction envs as [|e es IH]; intros rs st; cbn [turns]; [reflexivity|].
+  destruct (iteration beh e rs st) as [[s1 r1] t]. specialize (IH r1 s1). destruct (turns beh es r1 s1) as [[s2 r2] ts]. cbn in *. lia.
+Qed.
+
+(* in 3 * n consecutive full turns every level is admitted at least n times *)
+Lemma admitted_3n : forall beh n envs rs st st' rs' ts p, length envs = (3 * n)%nat ->
+  turns beh envs rs st = (st', rs', ts) -> (forall t, In t ts -> ti_returned t = false) -> Z.of_nat n <= admitted_count ts p.
+Proof.
+  intros beh. induction n as [|n IH]; intros envs rs st st' rs' ts p L T R.
+  - apply admitted_count_nonneg.
+  - destruct envs as [|e1 [|e2 [|e3 es]]]; cbn in L; try lia.
+    change (e1 :: e2 :: e3 :: es) with ([e1; e2; e3] ++ es) in T. rewrite turns_app in T.
+    destruct (turns beh [e1; e2; e3] rs st) as [[s1 r1] t1] eqn:T1. destruct (turns beh es r1 s1) as [[s2 r2] t2] eqn:T2.
+    inversion T; subst.
+    assert (R1 : forall t, In t t1 -> ti_returned t = false) by (intros; apply R; apply in_or_app; auto).
+    assert (R2 : forall t, In t t2 -> ti_returned t = false) by (intros; apply R; apply in_or_app; auto).
+    destruct (admitted_every_three beh e1 e2 e3 [] rs st s1 r1 t1 p T1 R1) as (a & b & c & rest & E & A).
+    assert (rest = []).
+    { pose proof (turns_length beh [e1; e2; e3] rs st) as X. rewrite T1 in X. cbn in X. subst t1. cbn in X. destruct rest; [reflexivity|cbn in X; lia]. }
+    subst rest t1. rewrite admitted_count_app.
+    assert (length es = (3 * n)%nat) by lia. specialize (IH es r1 s1 st' rs' t2 p H T2 R2). lia.
+Qed.
+
+(* bounded wait, closed form: after 3 * (k / to_process + 1) full turns the item at position k has been dispatched *)
+Lemma item_served_bound : forall beh envs rs st st' rs' ts p k it,
+  workload beh -> nosig st -> length envs = (3 * (Z.to_nat (Z.of_nat k / LOOP_TO_PROCESS) + 1))%nat ->
+  turns beh envs rs st = (st', rs', ts) -> (forall t, In t ts -> ti_returned t = false) ->
+  nth_error (jq st p) k = Some it ->
+  exists l pre, jq st p ++ l = pre ++ jq st' p /\ zlen pre = total_disp ts p /\ nth_error pre k = Some it.
+Proof.
+  intros beh envs rs st st' rs' ts p k it W N L T R Hk.
+  apply (item_served_within beh envs rs st st' rs' ts p k it W N T R Hk).
+  pose proof (admitted_3n beh _ envs rs st st' rs' ts p L T R) as A. pose proof to_process_pos.
+  set (q := Z.of_nat k / LOOP_TO_PROCESS) in *. assert (0 <= q) by (apply Z.div_pos; lia).
+  rewrite Nat2Z.inj_add, Z2Nat.id in A by lia.
+  assert (Z.of_nat k < LOOP_TO_PROCESS * (q + 1)).
+  { pose proof (Z.mod_pos_bound (Z.of_nat k) LOOP_TO_PROCESS ltac:(lia)). pose proof (Z.div_mod (Z.of_nat k) LOOP_TO_PROCESS ltac:(lia)). unfold q. nia. }
+  nia.
+Qed.
